@@ -262,7 +262,10 @@ func init() {
 		notDecided:  []string{"that re-encoding a successfully decoded graph and decoding again gives the same graph", "that an error (rather than some graph) is returned for each particular malformed string", "allocation size for huge declared n (outside the property's bound)", "index safety inside callees beyond their explicit panics and stated contracts (NewDense, NewSparse, AddEdge bodies)"},
 		assumptions: []string{"declared n <= 4096, so n(n-1)/2, 6*len(s) and uint64->int conversions do not overflow", "trusted contracts: (*SparseGraph).AddEdge(i, j) is panic-free for 0 <= i, j < N; fmt/errors/strings/bits functions listed in noPanicStd do not panic"},
 		run: func(c *Ctx, tier string) []*RuleResult {
-			return []*RuleResult{ruleBounds(c, dec, tier), ruleTerm(c, dec), rulePrecond(c, dec)}
+			hd := &RuleResult{Rule: "HEADER", Doc: "the optional header is removed as a prefix: a strings.Trim/TrimLeft with the header text as its character set eats leading data bytes (the size byte), so the graph returned is not on the declared number of vertices", MinInst: 2}
+			trimRule(c, hd, "graph.Graph6Decode", 63, 126)
+			trimRule(c, hd, "graph.Sparse6Decode", 58, 58)
+			return []*RuleResult{ruleBounds(c, dec, tier), ruleTerm(c, dec), rulePrecond(c, dec), hd}
 		},
 		controls: func(ctl *Ctx) []*RuleResult {
 			b := ruleBounds(ctl, []string{"decctl.BadIndexBeforeCheck", "decctl.BadLoopEnd", "decctl.GoodDecode"}, "quick")
